@@ -377,6 +377,34 @@ Example C12_nonvacuous_migration :
 Proof. exact ex_migration. Qed.
 Print Assumptions C12_nonvacuous_migration.
 
+(* ---- the migration window -------------------------------------------------------------------
+   exchanges moving c h: idle exchanges of the client, each with its re-key draw (roll) and the key
+   material a completed rotation would leave (the ECDH is not modelled); a rotation starts only when the
+   draw fires and the Session is not Moving.  window_exchange c pre win new0: exchanges `pre`, then
+   MigrateProfile sets Moving and writes the hand-off, exchanges `win` run inside the window, then the
+   new process reads the hand-off.  For EVERY history of exchanges in the window the session it loads
+   has the identity and key material the old client holds at confirmation. *)
+Theorem C12_no_rotation_while_moving :
+  forall c h, exchanges true c h = c.
+Proof. exact exchanges_moving. Qed.
+Print Assumptions C12_no_rotation_while_moving.
+
+Theorem C12_handoff_keys_are_current :
+  forall c pre win new0,
+  wf infoMigrate (exchanges false c pre) = true ->
+  exists d c', window_exchange c pre win new0 = Ok (d, c') /\
+    c' = exchanges false c pre /\ s_id d = s_id c' /\ s_keys d = s_keys c' /\
+    s_jitter d = s_jitter c' /\ s_sleep d = s_sleep c'.
+Proof. exact window_keys_current. Qed.
+Print Assumptions C12_handoff_keys_are_current.
+
+(* the guard is necessary: without it one rotation in the window separates the hand-off from the client *)
+Theorem C12_window_without_guard_refuted :
+  exists c x, s_client c = true /\
+    s_keys (exchanges false c [x]) <> s_keys c /\ s_keys (exchanges true c [x]) = s_keys c.
+Proof. exact window_without_guard_refuted. Qed.
+Print Assumptions C12_window_without_guard_refuted.
+
 (* ---- non-vacuity ---------------------------------------------------------------------------
    a concrete client session (two interfaces, a 300-byte host name, kill date, work hours, an
    active proxy, keys) satisfies wf for all six kinds and exact_settings; its settings differ from
